@@ -883,3 +883,213 @@ func (c *Ctx) ruleSticky(rule string) {
 		c.R.Unresolved(rule, sprintf("reads from the stream decoder (%d, expected >= 4 obligations) / places that start to depend on the stream (%d, expected >= 2)", nA, nB))
 	}
 }
+
+// R-SIGNONFATAL (C07 "every accepted work-start gets exactly one terminal message"): the terminal message of a run is
+// its work-done message or a step-fatal error, and the step's own goroutine sends exactly one of them (R-EXACTLYONE).
+// Whatever the server reports on behalf of a *signal* - undecodable payload, unknown run, unknown signal, failing or
+// panicking handler - concerns a run whose step is still running and will send its terminal message later: such a
+// report must not be step-fatal. Obligation: no error report reachable from the signal branch of the server's message
+// dispatch (the code under MessageID == MessageTypeSignal, its callees, and the goroutines they start) sets StepFatal
+// to the constant true.
+func (c *Ctx) ruleSignalNonFatal(rule string) {
+	ro := c.roles()
+	if !ro.ok {
+		return
+	}
+	pkg := c.M.Types["atp"]
+	if pkg == nil {
+		c.R.Unresolved(rule, "package atp")
+		return
+	}
+	sigConst, _ := pkg.Scope().Lookup("MessageTypeSignal").(*types.Const)
+	if sigConst == nil {
+		c.R.Unresolved(rule, "constant atp.MessageTypeSignal")
+		return
+	}
+	want := sigConst.Val().ExactString()
+	var branchRoots []*ssa.Function
+	type direct struct {
+		fn *ssa.Function
+		b  *ssa.BasicBlock
+	}
+	var branchBlocks []direct
+	for _, fn := range c.M.SortedFuncs(c.scopePkg("atp")) {
+		if !c.methodOrClosureOf(fn, ro.serverT) {
+			continue
+		}
+		for _, b := range fn.Blocks {
+			inBranch := false
+			for _, cond := range core.CondsAt(b) {
+				bin, ok := cond.V.(*ssa.BinOp)
+				if !ok || bin.Op != token.EQL || !cond.True {
+					continue
+				}
+				for _, side := range []ssa.Value{bin.X, bin.Y} {
+					if cst, ok := side.(*ssa.Const); ok && cst.Value != nil && cst.Value.ExactString() == want {
+						other := bin.X
+						if side == bin.X {
+							other = bin.Y
+						}
+						if strings.HasSuffix(c.M.ValPath(other), ".MessageID") {
+							inBranch = true
+						}
+					}
+				}
+			}
+			if !inBranch {
+				continue
+			}
+			branchBlocks = append(branchBlocks, direct{fn, b})
+			for _, in := range b.Instrs {
+				if ci, ok := in.(ssa.CallInstruction); ok {
+					branchRoots = append(branchRoots, c.M.Callees(ci.Common())...)
+				}
+			}
+		}
+	}
+	if len(branchBlocks) == 0 {
+		c.R.Unresolved(rule, "signal branch of the server's message dispatch (MessageID == MessageTypeSignal)")
+		return
+	}
+	reach := c.M.Reachable(branchRoots, nil) // follows go statements too
+	isFatalStore := func(in ssa.Instruction) bool {
+		st, ok := in.(*ssa.Store)
+		if !ok {
+			return false
+		}
+		fa, ok := st.Addr.(*ssa.FieldAddr)
+		if !ok || structOf(fa.X.Type()) == nil || structOf(fa.X.Type()).Obj().Name() != "ServerError" || fieldName(fa.X.Type(), fa.Field) != "StepFatal" {
+			return false
+		}
+		cst, ok := st.Val.(*ssa.Const)
+		return ok && cst.Value != nil && cst.Value.String() == "true"
+	}
+	n := 0
+	report := func(fn *ssa.Function, in ssa.Instruction) {
+		n++
+		c.R.Bad(rule, key(rule, c.M.Key(fn), sprintf("report #%d on the signal path is not step-fatal", n)), c.M.InstrPos(in),
+			"an error reported on behalf of a signal is marked step-fatal",
+			"the run the signal names is still running and sends its own terminal message later: the client sees two terminal messages for one work-start (its Execute fails on the first; the work-done that follows belongs to no waiting run)")
+	}
+	for _, d := range branchBlocks {
+		for _, in := range d.b.Instrs {
+			if isFatalStore(in) {
+				report(d.fn, in)
+			}
+		}
+	}
+	var fns []*ssa.Function
+	for f := range reach {
+		fns = append(fns, f)
+	}
+	sort.Slice(fns, func(i, j int) bool { return c.M.Key(fns[i]) < c.M.Key(fns[j]) })
+	nServer := 0
+	for _, f := range fns {
+		if !c.methodOrClosureOf(f, ro.serverT) {
+			continue
+		}
+		nServer++
+		for _, b := range f.Blocks {
+			for _, in := range b.Instrs {
+				if isFatalStore(in) {
+					report(f, in)
+				}
+			}
+		}
+	}
+	if n == 0 {
+		c.R.Ok(rule, key(rule, "signal path", "no step-fatal report"), "-", "reports on behalf of signals",
+			sprintf("%d blocks under MessageID == MessageTypeSignal and %d server functions reachable from them (goroutines included): none builds a ServerError with StepFatal set to true", len(branchBlocks), nServer))
+	}
+}
+
+// R-RELOCK (C06 / C08 "never leaves a caller blocked"): sync.Mutex is not re-entrant. A call made while a mutex of the
+// client (or of the server session) is certainly held must not reach - synchronously - a Lock of the same mutex: the
+// goroutine would wait for itself, holding the mutex, and every other caller would queue behind it. Obligation, per
+// function of package atp that takes one of these mutexes: the mutex is not held at any of its (transitive, synchronous)
+// call sites.
+func (c *Ctx) ruleRelock(rule string) {
+	ro := c.roles()
+	if !ro.ok {
+		return
+	}
+	fieldOf := func(path string) string { return path[strings.LastIndex(path, ".")+1:] }
+	// which mutex fields does a function lock itself?
+	locksOwn := map[*ssa.Function]map[string]bool{}
+	for _, fn := range c.M.SortedFuncs(c.scopePkg("atp")) {
+		for _, b := range fn.Blocks {
+			for _, in := range b.Instrs {
+				if call, ok := in.(*ssa.Call); ok && mutexOp(&call.Call) == "lock" {
+					p := c.M.AddrPath(call.Call.Args[0])
+					if !strings.Contains(p, ".") {
+						continue
+					}
+					if locksOwn[fn] == nil {
+						locksOwn[fn] = map[string]bool{}
+					}
+					locksOwn[fn][fieldOf(p)] = true
+				}
+			}
+		}
+	}
+	// transitive (synchronous) closure
+	acquires := func(fn *ssa.Function) map[string]*ssa.Function {
+		out := map[string]*ssa.Function{}
+		for g := range c.reachSync(fn) {
+			for m := range locksOwn[g] {
+				if out[m] == nil || c.M.Key(g) < c.M.Key(out[m]) {
+					out[m] = g
+				}
+			}
+		}
+		return out
+	}
+	n := 0
+	for _, fn := range c.M.SortedFuncs(c.scopePkg("atp")) {
+		if !c.methodOrClosureOf(fn, ro.clientT) && !c.methodOrClosureOf(fn, ro.serverT) {
+			continue
+		}
+		cnt := map[string]int{}
+		for _, b := range fn.Blocks {
+			for _, in := range b.Instrs {
+				call, ok := in.(*ssa.Call)
+				if !ok || mutexOp(&call.Call) != "" {
+					continue
+				}
+				held := map[string]bool{}
+				for _, l := range c.lockedAt(fn, in) {
+					if strings.Contains(l, ".") {
+						held[fieldOf(l)] = true
+					}
+				}
+				if len(held) == 0 {
+					continue
+				}
+				for _, callee := range c.M.Callees(&call.Call) {
+					if !c.methodOrClosureOf(callee, ro.clientT) && !c.methodOrClosureOf(callee, ro.serverT) {
+						continue
+					}
+					acq := acquires(callee)
+					n++
+					cnt[callee.Name()]++
+					k := key(rule, c.M.Key(fn), sprintf("call #%d of %s with a mutex held does not take that mutex again", cnt[callee.Name()], callee.Name()))
+					clash := ""
+					for m := range held {
+						if g := acq[m]; g != nil {
+							clash = m + " (locked in " + c.M.Key(g) + ")"
+						}
+					}
+					if clash == "" {
+						c.R.Ok(rule, k, c.M.InstrPos(call), "call made inside a critical section", "neither the callee nor anything it calls synchronously locks a mutex that is held here")
+					} else {
+						c.R.Bad(rule, k, c.M.InstrPos(call), "a function that takes the mutex is called with that mutex held",
+							"sync.Mutex is not re-entrant: the call reaches a Lock of "+clash+" while it is held at the call site; the goroutine waits for itself for ever, and with it everyone who needs the mutex (every pending and later Execute, Close)")
+					}
+				}
+			}
+		}
+	}
+	if n < 3 {
+		c.R.Unresolved(rule, sprintf("calls of client / server methods made inside critical sections (%d found, at least 3 expected)", n))
+	}
+}
